@@ -77,6 +77,12 @@ fn write_and_open(data: &[u8], name: &str, cfg: &Cfg) -> (crate::Archive, usize,
     let r = b.write_file(&mut out, &params);
     assert!(r.is_ok(), "write_file failed on valid input");
     let (stored, flags) = r.unwrap();
+    // the size the block table will declare covers exactly the bytes written (checksums are appended after it)
+    let written = out.len() - 32;
+    let crc_bytes = if flags & BlockEntry::FLAG_SECTOR_CRC != 0 {
+        if flags & BlockEntry::FLAG_SINGLE_UNIT != 0 { 4 } else { 4 * data.len().div_ceil(512) }
+    } else { 0 };
+    assert!(stored + crc_bytes == written, "stored size declared for the block table differs from the bytes written");
     if ELEMENTWISE_IMAGE {
         memfile::set_image_elementwise(&out);
         unsafe { memfile::ELEMENTWISE = true; }
@@ -223,4 +229,165 @@ fn c01d_canary() {
     let got = a.read_file("a").unwrap();
     assert!(got[0] != data[0], "canary: must be reported as failing");
     std::mem::forget((a, got));
+}
+
+// ---------------------------------------------------------------- C10.d single-byte faults vs the sector checksum
+/// a file written with a sector checksum: any single-byte change to its stored data or to the stored
+/// checksum makes read_file fail, or the returned content is still the original
+#[kani::proof]
+#[kani::unwind(80)]
+#[kani::stub(std::fmt::format, vio::fmt_stub)]
+#[kani::stub(<std::fs::File as std::io::Read>::read, memfile::mem_read)]
+#[kani::stub(<std::fs::File as std::io::Read>::read_buf, memfile::mem_read_buf)]
+#[kani::stub(<std::fs::File as std::io::Seek>::seek, memfile::mem_seek)]
+fn c10d_single_byte_fault_detected() {
+    let data: [u8; 6] = kani::any();
+    unsafe { CODEC_SHRINKS = false; ORIG_N = 0; }
+    let cfg = Cfg { compression: 0, encrypt: false, fix_key: false, crc: true, file_pos: 32 };
+    let (mut a, stored, flags) = write_and_open(&data, "a", &cfg);
+    assert!(stored == 6 && flags & BlockEntry::FLAG_SECTOR_CRC != 0, "checksum was requested but the file carries none");
+    let off: usize = kani::any();
+    let mask: u8 = kani::any();
+    kani::assume(off < 6 + 4 && mask != 0);
+    unsafe { memfile::IMG[32 + off] ^= mask; }
+    let r = a.read_file("a");
+    kani::cover!(r.is_err(), "fault detected");
+    if let Ok(got) = &r {
+        let i: usize = kani::any();
+        kani::assume(i < 6);
+        assert!(got.len() == 6 && got[i] == data[i], "altered protected data was returned without an error");
+    }
+    std::mem::forget((a, r));
+}
+
+/// the unmodified file verifies
+#[kani::proof]
+#[kani::unwind(80)]
+#[kani::stub(std::fmt::format, vio::fmt_stub)]
+#[kani::stub(<std::fs::File as std::io::Read>::read, memfile::mem_read)]
+#[kani::stub(<std::fs::File as std::io::Read>::read_buf, memfile::mem_read_buf)]
+#[kani::stub(<std::fs::File as std::io::Seek>::seek, memfile::mem_seek)]
+fn c10d_intact_file_verifies() {
+    let data: [u8; 6] = kani::any();
+    unsafe { CODEC_SHRINKS = false; ORIG_N = 0; }
+    let cfg = Cfg { compression: 0, encrypt: false, fix_key: false, crc: true, file_pos: 32 };
+    let (mut a, _stored, _flags) = write_and_open(&data, "a", &cfg);
+    let r = a.read_file("a");
+    kani::cover!(r.is_ok());
+    assert!(r.is_ok(), "intact file with a sector checksum fails verification");
+    std::mem::forget((a, r));
+}
+
+// ---------------------------------------------------------------- C02.d reference writer -> real reader
+// Files laid out per the published format by a reference writer (not by the builder): the real reader must
+// return their content.
+fn put32(v: &mut Vec<u8>, x: u32) { v.extend_from_slice(&x.to_le_bytes()); }
+
+fn open_reference(image: &[u8], file_size: u32, stored: u32, flags: u32) -> crate::Archive {
+    memfile::set_image_elementwise(image);
+    unsafe { memfile::ELEMENTWISE = true; }
+    let b = ArchiveBuilder::new();
+    let mut ht = HashTable::new(4).unwrap();
+    let mut bt = BlockTable::new(1).unwrap();
+    *bt.get_mut(0).unwrap() = BlockEntry { file_pos: 32, compressed_size: stored, file_size, flags: flags | BlockEntry::FLAG_EXISTS };
+    assert!(b.add_to_hash_table(&mut ht, "a", 0, 0).is_ok());
+    std::mem::forget(b);
+    fab_archive(ht, bt, 0)
+}
+
+/// a compressed file of at most one sector stored WITHOUT the single-unit flag: two-entry sector offset
+/// table followed by the one compressed sector (method byte + payload)
+#[kani::proof]
+#[kani::unwind(80)]
+#[kani::stub(std::fmt::format, vio::fmt_stub)]
+#[kani::stub(<std::fs::File as std::io::Read>::read, memfile::mem_read)]
+#[kani::stub(<std::fs::File as std::io::Read>::read_buf, memfile::mem_read_buf)]
+#[kani::stub(<std::fs::File as std::io::Seek>::seek, memfile::mem_seek)]
+#[kani::stub(crate::compression::decompress::decompress, decompress_stub)]
+fn c02d_reference_one_sector_compressed() {
+    let data: [u8; 6] = kani::any();
+    let payload: [u8; 4] = kani::any();
+    unsafe {
+        CODEC_PAYLOAD = payload;
+        ORIG_N = 1;
+        ORIG_LEN[0] = 6;
+        ORIG[0][..6].copy_from_slice(&data);
+    }
+    // reference layout: offsets [8, 12], then method byte 0x02 + 3 payload bytes (payload[0] is the codec's id 0)
+    let mut img: Vec<u8> = Vec::with_capacity(64);
+    img.extend_from_slice(&[0xEEu8; 32]);
+    put32(&mut img, 8);
+    put32(&mut img, 12);
+    img.push(0x02);
+    img.push(0);
+    img.push(payload[0]);
+    img.push(payload[1]);
+    let mut a = open_reference(&img, 6, 12, BlockEntry::FLAG_COMPRESS);
+    let r = a.read_file("a");
+    kani::cover!(r.is_ok());
+    assert!(r.is_ok(), "format-conformant one-sector compressed file is rejected");
+    let got = r.unwrap();
+    let i: usize = kani::any();
+    kani::assume(i < 6);
+    assert!(got.len() == 6 && got[i] == data[i], "format-conformant one-sector compressed file is read differently from what was stored");
+    std::mem::forget((a, got, img));
+}
+
+/// an uncompressed, unencrypted file stored as raw bytes (no offset table), single-unit or not
+#[kani::proof]
+#[kani::unwind(80)]
+#[kani::stub(std::fmt::format, vio::fmt_stub)]
+#[kani::stub(<std::fs::File as std::io::Read>::read, memfile::mem_read)]
+#[kani::stub(<std::fs::File as std::io::Read>::read_buf, memfile::mem_read_buf)]
+#[kani::stub(<std::fs::File as std::io::Seek>::seek, memfile::mem_seek)]
+fn c02d_reference_stored_file() {
+    let data: [u8; 6] = kani::any();
+    let single_unit: bool = kani::any();
+    let mut img: Vec<u8> = Vec::with_capacity(64);
+    img.extend_from_slice(&[0xEEu8; 32]);
+    img.extend_from_slice(&data);
+    let mut a = open_reference(&img, 6, 6, if single_unit { BlockEntry::FLAG_SINGLE_UNIT } else { 0 });
+    let r = a.read_file("A");
+    kani::cover!(r.is_ok());
+    assert!(r.is_ok(), "format-conformant stored file is rejected");
+    let got = r.unwrap();
+    let i: usize = kani::any();
+    kani::assume(i < 6);
+    assert!(got.len() == 6 && got[i] == data[i], "format-conformant stored file is read differently");
+    std::mem::forget((a, got, img));
+}
+
+/// acceptance implies the checksum really matches: data byte altered AND the stored checksum replaced by
+/// arbitrary bytes - whenever read_file still succeeds, the stored checksum is the Adler-32 of what it returns
+#[kani::proof]
+#[kani::unwind(80)]
+#[kani::stub(std::fmt::format, vio::fmt_stub)]
+#[kani::stub(<std::fs::File as std::io::Read>::read, memfile::mem_read)]
+#[kani::stub(<std::fs::File as std::io::Read>::read_buf, memfile::mem_read_buf)]
+#[kani::stub(<std::fs::File as std::io::Seek>::seek, memfile::mem_seek)]
+fn c10d_accept_implies_checksum_matches() {
+    let data: [u8; 4] = kani::any();
+    unsafe { CODEC_SHRINKS = false; ORIG_N = 0; }
+    let cfg = Cfg { compression: 0, encrypt: false, fix_key: false, crc: true, file_pos: 32 };
+    let (mut a, stored, _flags) = write_and_open(&data, "a", &cfg);
+    assert!(stored == 4);
+    let off: usize = kani::any();
+    let mask: u8 = kani::any();
+    kani::assume(off < 4);
+    let new_crc: [u8; 4] = kani::any();
+    unsafe {
+        memfile::IMG[32 + off] ^= mask;
+        memfile::IMG[36] = new_crc[0];
+        memfile::IMG[37] = new_crc[1];
+        memfile::IMG[38] = new_crc[2];
+        memfile::IMG[39] = new_crc[3];
+    }
+    let r = a.read_file("a");
+    kani::cover!(r.is_ok() && mask != 0, "a consistent rewrite of data and checksum is accepted");
+    kani::cover!(r.is_err());
+    if let Ok(got) = &r {
+        assert!(got.len() == 4);
+        assert!(adler2::adler32_slice(got) == u32::from_le_bytes(new_crc), "file accepted although its stored sector checksum does not match the returned content");
+    }
+    std::mem::forget((a, r));
 }
